@@ -6,7 +6,7 @@
 
 #[cfg(not(kani))]
 pub mod kani {
-    use std::cell::RefCell;
+    use core::cell::RefCell;
     thread_local! {
         static VALS: RefCell<Vec<Vec<u8>>> = RefCell::new(Vec::new());
         static POS: RefCell<usize> = RefCell::new(0);
@@ -64,7 +64,7 @@ pub mod kani {
     pub struct AssumeFailed;
     pub fn assume(c: bool) {
         if !c {
-            std::panic::resume_unwind(Box::new(AssumeFailed));
+            crate::stdx::panic::resume_unwind(Box::new(AssumeFailed));
         }
     }
     #[macro_export]
